@@ -110,6 +110,14 @@ def gen(seed: int, i: int, tier: str) -> dict:
     if proto in G.PROTOS_2X and rng.random() < 0.25:
         # several messages held for the sleeping node, then a wake during which transport writes fail
         scn["batch"] = [[2, rng.choice([0, 1]), 1, 0, t, f"b{k}"] for k, t in enumerate(rng.sample([0, 2, 3, 24, 47], rng.randint(2, 4)))]
+        if rng.random() < 0.5:
+            # other commands for the same node / child / type in between: they may be written at once or held, but may not
+            # displace a held set command (nor be displaced by one)
+            for _ in range(rng.randint(1, 3)):
+                f = list(rng.choice(scn["batch"]))
+                kind = rng.choice(["req", "req", "internal"])
+                g = [f[0], f[1], 2, 0, f[4], ""] if kind == "req" else [f[0], 255, 3, 0, rng.choice([13, 18, 19]), ""]
+                scn["batch"].insert(rng.randint(0, len(scn["batch"])), g)
         scn["tapes"] = {"w.fail.set": [rng.choice([0, 1, 2]) for _ in range(3)]}
         if rng.random() < 0.4:
             scn["switch_to"] = rng.choice([p for p in G.PROTOS_2X if p != proto])
@@ -325,7 +333,8 @@ def _batch(scn, proto, res):
         for f in scn["batch"]:
             obs = w.send_step(tuple(f), True)
             if obs.kind == "ok" and not obs.writes:
-                lines[(f[0], f[1], f[4])] = encode(tuple(f))
+                # held: the latest SET per (node, child, type) is owed; any other held command is owed as it is
+                lines[(f[0], f[1], f[2], f[4])] = encode(tuple(f))
         written = []
         failed_any = False
         for noise in scn.get("noise", []):
